@@ -253,10 +253,11 @@ def main():
         if case is None:
             status["harness"].append("violation in run %s did not replay: %s" % (v["run_id"], shrink_info))
         else:
-            os.makedirs(os.path.join(HERE, "replays"), exist_ok=True)
-            tmp = os.path.join(HERE, "replays", "%s-tmp-%d.json" % (prop, os.getpid()))
+            rdir = os.environ.get("VERIF_REPLAY_DIR") or os.path.join(HERE, "replays")
+            os.makedirs(rdir, exist_ok=True)
+            tmp = os.path.join(rdir, "%s-tmp-%d.json" % (prop, os.getpid()))
             doc = campaign.write_replay(tmp, repo, case, v["key"])
-            replay_path = os.path.join(HERE, "replays", "%s-%s.json" % (prop, doc["expected"]["digest"][:12]))
+            replay_path = os.path.join(rdir, "%s-%s.json" % (prop, doc["expected"]["digest"][:12]))
             os.replace(tmp, replay_path)
             # replay twice more (same process is enough here; fresh-interpreter replays are part of selftest)
             c2, d2 = campaign.load_replay(replay_path)
